@@ -15,6 +15,7 @@ from harness.core import fl, nl, bl, ll, pl
 PROP = "C13"
 THEOREMS = {"Artap.Props.C13": [
     "C13_fullfact_index_bijective", "C13_fullfact_bijective",
+    "C13_fullfact_row_closed_form", "C13_build_full_fact_row_closed_form",
     "C13_pb_structure", "C13_pb_levels", "C13_pb_rejects",
     "C13_bb_structure", "C13_bb_levels",
     "C13_gsd_partition", "C13_gsd_complementary", "C13_gsd_succeeds", "C13_gsd_generate_subset"]}
@@ -365,6 +366,138 @@ def run(ctx):
                      ([3, 4, 6], 4, 4), ([5, 5], 5, 5), ([6, 2, 3], 3, 2), ([2, 2, 2, 2, 2], 2, 2), ([7, 3], 6, 6),
                      ([4, 4, 4], 4, 4), ([2, 2], 3, 3), ([0, 3], 2, 1), ([3, 3, 3], 3, 3)]:
         do_gsd(lv, r, n)
+
+    # ---- level counts and run counts around the integer-width boundaries -------------------
+    # (red team round 2: the index matrix of fullfact allocated as int8, so level indices >= 128 wrapped.)  Designs up to
+    # about a thousand rows go through the ordinary complete comparison above; for every such design, and for the big
+    # ones (level counts / run counts around 2^11, 2^15, 2^16), the run count and SAMPLED rows are compared with the
+    # model through the proved closed form (row q = mixed-radix digits of q, C13_fullfact_row_closed_form), the sampled
+    # positions covering the first / last rows, the run-count boundaries 2^k - 1, 2^k, 2^k + 1 and, per factor, the
+    # level indices around 2^7, 2^8, 2^11, 2^15, 2^16 and the last level.  The direct oracle compares the WHOLE design
+    # with itertools.product in Python.
+    EDGE = [126, 127, 128, 129, 254, 255, 256, 257, 2046, 2047, 2048, 2049, 32766, 32767, 32768, 32769, 65534, 65535, 65536, 65537]
+
+    def sample_positions(lens):
+        n = 1
+        for L in lens:
+            n *= L
+        pos = [0, 1, 2, n - 2, n - 1, n, n + 1]
+        for k in (7, 8, 11, 15, 16, 17):
+            pos += [2 ** k - 1, 2 ** k, 2 ** k + 1]
+        stride = 1
+        for L in lens:
+            if L > 100:
+                for d in EDGE + [L - 2, L - 1]:
+                    if 0 <= d < L:
+                        lo = rng.randrange(stride)
+                        hi = rng.randrange(max(n // (stride * L), 1))
+                        pos.append(lo + stride * (d + L * hi))
+            stride *= L
+        pos += [rng.randrange(max(n, 1)) for _ in range(12)]
+        out = []
+        for q in pos:
+            if q >= 0 and q not in out:
+                out.append(q)
+        return n, out
+
+    def as_index(x):
+        """an entry of the index matrix as an integer; -1 for anything that is not an integral finite number"""
+        try:
+            x = float(x)
+            return int(x) if x == int(x) else -1
+        except (OverflowError, ValueError, TypeError):
+            return -1
+
+    def do_full_big(api, lens, center=False):
+        lens = [int(x) for x in lens]
+        k = len(lens)
+        inp = {"function": api, "level_counts": lens}
+        if api == "fullfact":
+            values = [list(range(L)) for L in lens]
+            out, e = call(lambda: doe.fullfact(list(lens)))
+        else:
+            if api == "FullFactorGenerator":
+                bounds = [(float(i), float(i) + 0.5 + 0.25 * (i % 3)) for i in range(k)]
+                values = [[b[0], (b[0] + b[1]) / 2.0, b[1]] if center else [b[0], b[1]] for b in bounds]
+                assert lens == [len(v) for v in values]
+                g = ops.FullFactorGenerator(parameters=params_of(bounds))
+                g.init(center)
+                inp.update(generator=api, center=bool(center), bounds=[list(b) for b in bounds])
+                f = g.generate
+            else:
+                values = [[float(10 * i) + 0.5 * j for j in range(L)] for i, L in enumerate(lens)]
+                inp.update(values="factor i has the levels 10 i + 0.5 j, j = 0 .. level_counts[i] - 1")
+                if api == "FullFactorLevelsGenerator":
+                    g = ops.FullFactorLevelsGenerator(parameters=[{"name": "U_%d" % i} for i in range(k)])
+                    g.init([list(v) for v in values])
+                    inp.update(generator=api)
+                    f = g.generate
+                else:
+                    d = {"x_%d" % i: list(v) for i, v in enumerate(values)}
+                    f = lambda: doe.build_full_fact(d)
+            out, e = call(f)
+        n, pos = sample_positions(lens)
+        case = "CFullAt %s %s" % (ll(lens, lambda x: "%d%%N" % x), ll(pos, lambda x: "%d%%N" % x))
+        key = (api, tuple(lens), bool(center))
+        m = dict(inp, kind="full_big", sampled_positions=len(pos))
+        if e is not None:
+            errors[e] += 1
+            fail("%s raised %s for the level counts %r" % (api, e, lens if k <= 6 else "%d x %d" % (k, lens[0])), inp, "fullfact_big")
+            push("full_big", case, "OErr %s" % nl(ERR.get(e, 9)), dict(m, error=e), key, nontrivial=False)
+            return
+        rows = [tuple(r) for r in (out.tolist() if hasattr(out, "tolist") else out)]
+        want = Counter(itertools.product(*values))
+        got = Counter(rows)
+        if got != want:
+            missing = list((want - got).keys())[:2]
+            extra = list((got - want).keys())[:2]
+            fail("full factorial is not every level combination exactly once: %d rows for %d combinations, missing %r, surplus %r"
+                 % (len(rows), sum(want.values()), missing, extra), inp, "fullfact_big")
+        index = [{v: j for j, v in enumerate(vs)} for vs in values]
+        sample = []
+        for q in pos:
+            if q < len(rows):
+                sample.append([int(index[i].get(x, -1)) if api != "fullfact" else as_index(x) for i, x in enumerate(rows[q])])
+            else:
+                sample.append([])
+        exp = "OSample %d%%N %s" % (len(rows), ll(sample, lambda r: ll(r, lambda x: "(%d)%%Z" % x)))
+        sizes["full_big:%s:max level count %d:%d rows" % (api, max(lens), len(rows))] += 1
+        push("full_big", case, exp, dict(m, rows=len(rows)), key)
+
+    WIDTHS = [127, 128, 129, 255, 256, 257]
+    for L in WIDTHS:
+        vals = [float(j) * 0.25 - 3.0 for j in range(L)]
+        do_full_levels([vals], 1)
+        do_full_levels([[1.0, 2.0], vals], 2)
+        do_full_levels([vals, [5.0, -1.0]], 2)
+        if L in (129, 257):
+            do_full_levels([[0.5], vals, [7.0, 8.0]], 3)
+        for api in ("fullfact", "build_full_fact", "FullFactorLevelsGenerator"):
+            do_full_big(api, [L])
+            do_full_big(api, [L, 2])
+            do_full_big(api, [2, L])
+        do_full_big("fullfact", [3, L, 2])
+        do_full_big("FullFactorLevelsGenerator", [2, L, 1, 2])
+    do_full_big("fullfact", [129, 130])
+    do_full_big("FullFactorLevelsGenerator", [257, 129])
+    for L in (2047, 2048, 2049, 2050) + ctx.pick((32767, 32768, 32769), (32767, 32768, 32769, 65535, 65536, 65537)):
+        do_full_big("fullfact", [L])
+        do_full_big("fullfact", [2, L] if L % 2 else [L, 2])
+        do_full_big("FullFactorLevelsGenerator", [L] if L % 2 == 0 else [L, 2])
+        if L in (2049, 32769):
+            do_full_big("build_full_fact", [2, L])
+    if not ctx.thorough:
+        do_full_big("fullfact", [65537])
+        do_full_big("FullFactorLevelsGenerator", [65536])
+    # many factors / many runs: run counts 2^7 .. 2^16 (+ 3^k) through FullFactorGenerator and fullfact
+    for kf in ctx.pick((7, 8, 9, 11, 15), (7, 8, 9, 10, 11, 12, 13, 14, 15, 16)):
+        do_full_big("FullFactorGenerator", [2] * kf)
+        do_full_big("fullfact", [2] * kf)
+    for kf in ctx.pick((5, 6, 9), (5, 6, 7, 8, 9, 10)):
+        do_full_big("FullFactorGenerator", [3] * kf, center=True)
+    do_full_big("fullfact", [2] * 16 if not ctx.thorough else [2] * 17)
+    do_full_big("fullfact", [5, 5, 5, 9, 9, 9])                     # the design named in the red-team change
+    do_full_big("FullFactorLevelsGenerator", [181, 3])              # an angle swept in 2-degree steps
 
     # ---- generated cases -------------------------------------------------------------------
     for _ in range(ctx.pick(40, 400)):
